@@ -338,6 +338,10 @@ impl Gen<'_> {
 
     fn fresh_name(&mut self) -> String {
         self.counter += 1;
+        if self.rng.chance(5) {
+            // a user may name a system like the printer's placeholder for unnamed ones
+            return format!("unnamed_{}", self.rng.below(8));
+        }
         if self.sh.exotic_names {
             match self.rng.below(7) {
                 5 => format!("größe{}", self.counter),
